@@ -351,3 +351,30 @@ def run_case(case, rec):
         _layouts.run_layout_case(case, rec)
     else:
         _run_case_main(case, rec)
+
+
+# ---------------------------------------------------------------------------------------
+# history family (props/c03_history.py): accessor calls interleaved with in-place updates / replacements of the position
+# coordinates and copies of the data array, all sequences up to depth 3 (quick) / 4 (thorough).
+
+from props import c03_history as _history  # noqa: E402
+
+_cases_with_layouts, _run_case_with_layouts = cases, run_case
+RULE = RULE + _history.RULE
+BOUND = {k: v + '; accessor histories: all event sequences of length <= %d over %d events' % (3 if k == 'quick' else 4, _history.N_EVENTS) for k, v in BOUND.items()}
+REQUIRED_CLASSES = {'quick': [*REQUIRED_CLASSES, *_history.REQUIRED], 'thorough': [*REQUIRED_CLASSES, *_history.REQUIRED, 'history_depth_4']}
+
+
+def cases(tier):
+    return _cases_with_layouts(tier) + _history.cases(tier)
+
+
+def run_case(case, rec):
+    if case.get('kind') == 'history':
+        rec = gc.Dedup(rec)
+        try:
+            _history.run_case(case, rec)
+        finally:
+            rec.flush()
+    else:
+        _run_case_with_layouts(case, rec)
